@@ -43,7 +43,7 @@ package token
 // Chunks cuts the string, it neither drops nor adds nor reorders text: the chunks concatenate to the input, and each is
 // a literal or a %...% token ("%%" included). (A7: the input is valid UTF-8, as YAML guarantees.)
 //@ func (*Chunker).Chunks pure
-//@   property C03 C12 C02 C11
+//@   property C03 C12 C02 C11 C15
 //@   uses join_frame pct_skip
 //@   ensures [unbalanced_delimiter_is_an_error] (result.1 != nil) <==> pct(s, len(s)) % 2 == 1
 //@   ensures [empty_is_one_empty_chunk] s == "" ==> result.1 == nil && len(result.0) == 1 && result.0[0] == ""
@@ -70,7 +70,7 @@ package token
 // toExpr strips the surrounding "%" delimiters. The code works on runes; "%" is a single byte and a single rune, so on
 // valid UTF-8 (A7) cutting one rune off each end is cutting one byte off each end.
 //@ func toExpr pure
-//@   property C03 C12 C02
+//@   property C03 C12 C02 C15
 //@   ensures [delimited_iff] result.1 <==> (len(expr) >= 2 && hasPrefix(expr, "%") && hasSuffix(expr, "%"))
 //@   ensures [inner] result.1 ==> expr == "%" + result.0 + "%"
 //@   ensures [not_ok_empty] !result.1 ==> result.0 == ""
@@ -100,7 +100,7 @@ package token
 
 // %fn(args)% with an unregistered fn: the catch-all for call syntax (the registered functions are tried first)
 //@ func (FactoryUnexpectedFunction).Supports
-//@   property C03 C11
+//@   property C03 C11 C15
 //@   ensures [iff] result <==> (len(expr) >= 2 && hasPrefix(expr, "%") && hasSuffix(expr, "%") && matches(substr(expr, 1, len(expr) - 2), regexSimpleFn))
 // a registered function claims only calls of its own name (the converse - every such call is claimed - needs uniqueness
 // of the regex decomposition, which no installed solver decides in time: not stated)
@@ -109,17 +109,17 @@ package token
 //@   ensures [call_syntax_only] result ==> len(expr) >= 2 && hasPrefix(expr, "%") && hasSuffix(expr, "%") && matches(substr(expr, 1, len(expr) - 2), regexSimpleFn)
 //@   ensures [own_name_only] result ==> hasPrefix(expr, "%" + f.fn + "(")
 //@ func (FactoryUnexpectedFunction).Create
-//@   property C03 C11
+//@   property C03 C11 C15
 //@   ensures [always_rejected] result.1 != nil
 //@ func (FactoryUnexpectedToken).Supports
-//@   property C03 C11
+//@   property C03 C11 C15
 //@   ensures [iff] result <==> (len(expr) >= 2 && hasPrefix(expr, "%") && hasSuffix(expr, "%"))
 //@ func (FactoryUnexpectedToken).Create
-//@   property C03 C11
+//@   property C03 C11 C15
 //@   ensures [always_rejected] result.1 != nil
 
 //@ func (*StrategyFactory).Create
-//@   property C03 C12 C02 C11
+//@   property C03 C12 C02 C11 C15
 //@   requires [wired] forall j int :: 0 <= j && j < len(f.strategies) ==> f.strategies[j] != nil
 //@   ensures [first_supporting_factory_decides] forall k int :: 0 <= k && k < len(f.strategies) && f.strategies[k].Supports(i)
 //@        && (forall q int :: 0 <= q && q < k ==> !f.strategies[q].Supports(i)) ==>
@@ -130,14 +130,14 @@ package token
 
 // registered functions are tried before everything registered earlier
 //@ func (*StrategyFactory).Prepend
-//@   property C03
+//@   property C03 C15
 //@   modifies f.strategies
 //@   ensures [new_first] len(f.strategies) == len(old(f.strategies)) + 1 && f.strategies[0] == s
 //@   ensures [others_in_order] forall j int :: 0 <= j && j < len(old(f.strategies)) ==> f.strategies[j + 1] == old(f.strategies)[j]
 
 // one token per chunk, in order; accepted iff every chunk is
 //@ func (*Tokenizer).Tokenize
-//@   property C03 C12 C02 C11
+//@   property C03 C12 C02 C11 C15
 //@   reports_all
 //@   requires [wired] t.chunker != nil && t.factory != nil
 //@   ensures [chunker_error_kept] t.chunker.Chunks(s).1 != nil ==> result.1 != nil
@@ -163,7 +163,7 @@ package token
 // C14: a function registered with an import resolves that import through the alias table when a token is created,
 // i.e. after all of meta.imports has been registered (StepCompileMeta.Process), never at registration time.
 //@ func NewFactoryFunction
-//@   property C14 C03
+//@   property C14 C03 C15
 //@   ensures [fields_as_given] result.aliaser == a && result.fn == fn && result.goImport == goImport && result.goFn == goFn
 //@   ensures [no_alias_at_registration] tlen() == old(tlen())
 
@@ -174,7 +174,7 @@ package token
 //@   ensures [import_resolved_at_creation] f.goImport != "" ==> (exists k int :: old(tlen()) <= k && k < tlen() && evIs(k, "internal/pkg/token:aliaser.Alias") && evS1(k) == f.goImport)
 
 //@ func (*FuncRegisterer).RegisterFunc
-//@   property C03 C12 C14
+//@   property C03 C12 C14 C15
 //@   requires [wired] f.prepender != nil
 //@   ensures [no_alias_at_registration] forall k int :: old(tlen()) <= k && k < tlen() ==> !evIs(k, "internal/pkg/token:aliaser.Alias")
 
